@@ -82,19 +82,17 @@ func repeat(fm *Frame, n int, v any) error {
 }
 
 func readBytes(fm *Frame, max int) (string, error) {
-	in := fm.InputFile()
-	buf := make([]byte, max)
-	read := 0
-	for read < max {
-		n, err := in.Read(buf[read:])
-		read += n
-		if err == io.EOF {
-			break
-		} else if err != nil {
-			return "", err
-		}
+	if max < 0 {
+		return "", errs.BadValue{What: "number of bytes",
+			Valid: "non-negative integer", Actual: strconv.Itoa(max)}
 	}
-	return string(buf[:read]), nil
+	// Don't allocate max bytes upfront: max may be much larger than what the
+	// input holds (or than what can be allocated at all).
+	buf, err := io.ReadAll(io.LimitReader(fm.InputFile(), int64(max)))
+	if err != nil {
+		return "", err
+	}
+	return string(buf), nil
 }
 
 func readUpto(fm *Frame, terminator string) (string, error) {
